@@ -477,13 +477,16 @@ def _vol_nested(node, above: bool) -> bool:
 def _dropmeas_ok(node):
     """(ok, has measurements): collecting windows below a count <= 0 raises ValueError in numpy half-way through
     (window arithmetic, C02's business) - not generated"""
-    has = bool(node._measurements)
+    has = len(node._measurements or ())
     ok = True
     for c in node:
         o, h = _dropmeas_ok(c)
         ok = ok and o
-        has = has or h
+        has = has + h
     if has and node.repetition_count <= 0:
+        ok = False
+    has = has * max(node.repetition_count, 0)      # windows are materialised once per repetition (numpy.tile)
+    if has > 20000:
         ok = False
     return ok, has
 
@@ -1203,7 +1206,7 @@ def run(ctx: core.Ctx):
         'a volatile count is an expression: count*(-1)*(-1) evaluates to count, the model clamps after every factor; merges '
         'of a volatile count with a NEGATIVE integer count are not generated',
         'input classes not generated: get_measurement_windows(drop=True) over measurements below a count <= 0 (numpy '
-        'raises ValueError half-way), merging two volatile counts, directly or inside cleanup (PF-07/08), nodes carrying a '
+        'raises ValueError half-way) or producing more than 20000 windows (MemoryError with counts of 10^6), merging two volatile counts, directly or inside cleanup (PF-07/08), nodes carrying a '
         'waveform AND children for append_child / cleanup / roll_constant_waveforms (class docstring: either a waveform or children)',
         'operations address nodes of ONE tree whose root has no parent pointer; editing detached nodes / copies that still '
         'point to a former parent is the open finding PF-C09-2',
